@@ -112,6 +112,11 @@ func accessFacts(s *src, f *facts) {
 			if !ok || fd.Body == nil {
 				continue
 			}
+			if s.fullyInlined(fd) {
+				// a helper whose body has been copied to every place it is called from: its accesses are
+				// listed there (with the locks the caller holds), not a second time here
+				continue
+			}
 			var ts []target
 			if fd.Recv != nil && len(fd.Recv.List) == 1 && len(fd.Recv.List[0].Names) == 1 {
 				ts = append(ts, target{recvBase(fd.Recv.List[0].Type), fd.Recv.List[0].Names[0].Name})
